@@ -1,6 +1,8 @@
 import Verif.Lemmas.C06
 import Verif.Lemmas.C06Writers
 import Verif.Driver.ExecEnv
+import Verif.Lemmas.C06Regexp
+import Verif.Lemmas.JsonTree
 /-! # C06 — Parser stages expose exactly the fields of a line and never drop it
 
 Theorems over `LogQL.Stage.apply` for json / logfmt / regexp / pattern / unpack (tied to the code by the C06 correspondence).  The JSON and logfmt *readers* are reached through `Env` (`jsonObject`, `jsonExpr`, `logfmt`): statements are relative to what the reader returns for the line; the executable readers `Verif/Env/Json.lean`, `Logfmt.lean`, `JsonExpr.lean` are compared with go-faster/jx and go-logfmt by the correspondence.  The pattern stage is proved at byte level with no environment. -/
@@ -192,6 +194,72 @@ example : Logfmt.read (Logfmt.write [([97], [120, 32, 34, 10]), ([98, 99], [])])
 example : Json.readObject false (Json.writeObj [([97, 34], .str [120, 10, 92]), ([98], .int (-42)), ([99], .bool true), ([], .null)])
     = ([([97, 34], .str [120, 10, 92]), ([98], .int (-42)), ([99], .bool true), ([], .null)], false) :=
   C06_json_read_write false _ (by decide)
+
+
+/-! ## The `regexp` stage against the language of its expression (hand-added)
+
+`Regex.Matches` is the textbook matching relation (Verif/Env/RegexSem.lean), `Regex.GoodCap re line (i, x, y)`
+says that the body of a group numbered `i` of `re` matches exactly bytes `[x, y)` of the line
+(Verif/Env/RegexCaps.lean); the executable matcher is proved sound for both (Lemmas/RegexSem, RegexCaps). -/
+
+/-- **C06 (regexp, no match)**: a line containing no word of the language is kept as it is — no label, no flag -/
+theorem C06_regexp_no_match_keeps_line (ts : Int) (seen : Seen) (a : LogQL.Acc) (re : Regex.Re) (n : Nat)
+    (mapping : List (Nat × Bytes)) (h : ¬ Regex.Contains re a.line) :
+    (Stage.apply ExecEnv.env ts (Stage.regexp re n mapping) seen a).fst = some a :=
+  C06Regexp.regexp_no_match ts seen a re n mapping h
+
+/-- **C06 (regexp, match)**: every label the stage sets belongs to a group of the mapping and carries the
+empty text (the group took no part) or exactly the bytes of the line its group's body matched -/
+theorem C06_regexp_exposes_captures (ts : Int) (seen : Seen) (a : LogQL.Acc) (re : Regex.Re) (n : Nat)
+    (mapping : List (Nat × Bytes)) (h : Regex.Contains re a.line) :
+    ∃ kvs, (Stage.apply ExecEnv.env ts (Stage.regexp re n mapping) seen a).fst = some { a with labels := setAll a.labels kvs } ∧
+      ∀ kv ∈ kvs, ∃ i, (i, kv.1) ∈ mapping ∧ C06Regexp.Exposed re a.line i kv.2 :=
+  C06Regexp.regexp_exposes_captures ts seen a re n mapping h
+
+/-- what the matcher reports, stated on its own: group 0 is a match of the whole expression, every other span a match of its group's body -/
+theorem C06_submatch_sound (r : Regex.Re) (n : Nat) (s : List Nat) (spans : List (Option (Nat × Nat)))
+    (h : Regex.submatch r n s = some spans) :
+    spans.length = n + 1 ∧
+    (∃ a b, spans[0]? = some (some (a, b)) ∧ a ≤ b ∧ b ≤ s.length ∧ Regex.Matches r a (Regex.slice s a b) (s.drop b)) ∧
+    (∀ i x y, spans[i + 1]? = some (some (x, y)) → Regex.GoodCap r s (i + 1, x, y)) :=
+  RegexCaps.submatch_sound r n s spans h
+
+/-- non-vacuity: `(a+)(b*)` on "xaab" reports groups 1 = [1,3) and 2 = [3,4) -/
+example : Regex.submatch (.seq (.grp 1 (.plus (.chr 97))) (.grp 2 (.star (.chr 98)))) 2 [120, 97, 97, 98]
+    = some [some (1, 4), some (1, 3), some (3, 4)] := by decide
+
+
+/-! ## `json` with path expressions against the tree the line denotes (hand-added)
+
+`JsonTree.JT` is a JSON document as a tree, `writeT` its canonical text, `denote paths cur t` what the
+requested paths select in it — defined on the tree, no parsing: a scalar at a requested path with its
+value (strings unescaped, numbers as written, `null` as the empty text), an array or object at a
+requested path with its text, in document order (Verif/Env/JsonTree.lean).  The byte-level extractor
+the correspondence runs against `jsonexpr.Extract` is proved to compute exactly that on the text of any
+tree with ASCII strings (Lemmas/JsonTree.lean). -/
+
+/-- the path extractor computes the denotation, for every tree, nesting depth and list of paths -/
+theorem C06_jsonexpr_extracts_denotation (paths : List (List Nat × JsonExpr.Path)) (t : JsonTree.JT)
+    (h : JsonTree.wfT t = true) :
+    JsonExpr.extract paths (JsonTree.writeT t) = (JsonTree.denote paths [] t, false) :=
+  JsonTreeL.extract_writeT paths t h
+
+/-- **C06 (json with path expressions)**: on the text of a tree the stage sets exactly what the
+requested paths (expressions first, then plain labels as one-key paths, a repeated label keeping its
+last request) denote, in document order — only the requested fields, overriding existing labels —
+keeps the line and sets no error -/
+theorem C06_json_paths_expose_denotation (ts : Int) (seen : Seen) (a : LogQL.Acc) (labels : List Bytes)
+    (exprs : List (Bytes × JsonExpr.Path)) (hne : exprs ≠ []) (t : JsonTree.JT) (hw : JsonTree.wfT t = true)
+    (hl : a.line = JsonTree.writeT t) :
+    (Stage.apply ExecEnv.env ts (Stage.json labels exprs) seen a).fst =
+      some { a with labels := (setAll a.labels
+        (JsonTree.denote (dedupLast (exprs ++ labels.map (fun l => (l, [JsonExpr.Sel.key l])))) [] t)) } := by
+  have he : exprs.isEmpty = false := by cases exprs <;> simp_all
+  have hx : ExecEnv.env.jsonExpr (dedupLast (exprs ++ labels.map (fun l => (l, [JsonExpr.Sel.key l])))) a.line
+      = (JsonTree.denote (dedupLast (exprs ++ labels.map (fun l => (l, [JsonExpr.Sel.key l])))) [] t, false) := by
+    rw [hl]; exact JsonTreeL.extract_writeT _ t hw
+  simp only [Stage.apply, he, Bool.not_false, if_true, hx]
+  rfl
 
 
 end LogQL.C06
